@@ -93,6 +93,12 @@ def cases(tier, seed):
                 continue
             for root in ("fixed_generic", "floating"):
                 out.append(mk(shape, jt, root, "generic", "generic", "generic", special="massless_leaf"))
+    # ... and the same massless frame (imu / tool frame) declared BEFORE its siblings
+    for shape in ("fork2", "star3"):
+        n = len(SHAPES[shape])
+        for jt in itertools.product(["revolute", "prismatic", "floating", "fixed"], repeat=n - 1):
+            for root in ("fixed_generic", "floating"):
+                out.append(mk(shape, ("fixed",) + jt, root, "generic", "generic", "generic", special="massless_first_child"))
     if not thorough:
         for jt in (("revolute",), ("continuous",), ("prismatic",), ("revolute", "revolute")):
             out.append(mk("chain%d" % len(jt), jt, "fixed_generic", "generic", "absent", "generic"))
@@ -241,6 +247,8 @@ def _model(case):
     m["massless"] = []
     if case.get("special") == "massless_leaf":
         m["massless"] = [n]  # the last link hangs on the last joint, which is fixed in these cases
+    if case.get("special") == "massless_first_child":
+        m["massless"] = [1]  # first child of the root (a leaf in fork2 / star3), its joint j1 is fixed and listed first
     # root
     root = case["root"]
     m["root_floating"] = root == "floating"
